@@ -152,7 +152,7 @@ package sstables
 //@         qErr(m.pq, j) == nil && cmpv(m.comp, content(asType(Slice, qKey(m.pq, j))), content(m.prevKey)) == 0)
 
 //@ func (*MergeCompactionIterator).Next
-//@   props C11 C08
+//@   props C11 C08 C06 C01
 //@   requires m.pq != nil && m.comp != nil
 //@   replay super_reader_model
 //@   bounded super_reader_model stacked reader and merge vs. reference map: all stacks of <= 2 (quick) / <= 3 (thorough, one third) tables over keys {"", a, b} x {absent, value, tombstone}
@@ -174,6 +174,16 @@ package sstables
 //@           m.valBuf[t] === asType(Slice, qVal(m.pq, qPos(m.pq) - 1 - len(m.valBuf) + t)) &&
 //@           cmpv(m.comp, content(asType(Slice, qKey(m.pq, qPos(m.pq) - 1 - len(m.valBuf) + t))), content(m.prevKey)) == 0) &&
 //@        errIs(qErr(m.pq, qPos(m.pq) - 1), pq.Done)
+//@   // what a reduction yields is what Next returns, unless it is the 'skip this key' answer (nil, nil): a nil value with a key
+//@   // is a tombstone and has to come out like any other entry
+//@   exit [C08,C06,C01:a-finished-group-is-emitted-unless-skipped] called(MergeCompactionIterator.reduce, 1) &&
+//@        (!isnil(callres(MergeCompactionIterator.reduce, 1, 0)) || !isnil(callres(MergeCompactionIterator.reduce, 1, 1))) ==>
+//@        r2 == nil && r0 === callres(MergeCompactionIterator.reduce, 1, 0) && r1 === callres(MergeCompactionIterator.reduce, 1, 1)
+//@   exit [C08,C06,C01:the-last-group-is-emitted-unless-skipped] called(MergeCompactionIterator.reduce, 0) &&
+//@        (!isnil(callres(MergeCompactionIterator.reduce, 0, 0)) || !isnil(callres(MergeCompactionIterator.reduce, 0, 1))) ==>
+//@        r2 == nil && r0 === callres(MergeCompactionIterator.reduce, 0, 0) && r1 === callres(MergeCompactionIterator.reduce, 0, 1)
+//@   exit [C08,C06:a-skipped-last-group-ends-the-merge] called(MergeCompactionIterator.reduce, 0) &&
+//@        isnil(callres(MergeCompactionIterator.reduce, 0, 0)) && isnil(callres(MergeCompactionIterator.reduce, 0, 1)) ==> r2 == Done
 //@   loop 0
 //@     invariant old(qPos(m.pq)) <= qPos(m.pq)
 //@     invariant forall j :: old(qPos(m.pq)) <= j && j < qPos(m.pq) ==> qErr(m.pq, j) == nil
